@@ -472,6 +472,82 @@ def _twins(ctx, cg):
                 break
     return out
 
+def _lib_eq_class(c):
+    """the class of the library in c's MRO that defines the `__eq__` c uses (None: object's identity comparison)"""
+    for b in type.mro(c):
+        if "__eq__" in vars(b):
+            return b if b.__module__.startswith("AcraNetwork") else None
+    return None
+
+_REL_CACHE = {}
+
+def relatives():
+    """{adapter name: {"other": [names of unrelated adapters], "sub": [...], "base": [...]}} from the real classes:
+    `sub` = adapters whose class is a proper subclass of this one's, `base` = adapters whose class is a proper base
+    class that takes part in the family's `__eq__`; everything else that can be constructed is `other`."""
+    if _REL_CACHE:
+        return _REL_CACHE
+    objs = {}
+    for n, ad in sorted(ADAPTERS.items()):
+        if ad.ctor is None:
+            continue
+        try:
+            objs[n] = type(ad.ctor())
+        except Exception:
+            continue
+    for n, c in objs.items():
+        rel = {"other": [], "sub": [], "base": []}
+        for m, d in objs.items():
+            if d is c:
+                continue
+            if issubclass(d, c):
+                rel["sub"].append(m)
+            elif issubclass(c, d):
+                if _lib_eq_class(d) is not None:
+                    rel["base"].append(m)
+            else:
+                rel["other"].append(m)
+        _REL_CACHE[n] = rel
+    return _REL_CACHE
+
+def _foreign_lines(ctx, cg):
+    """`a == x` for x = None, 0, "x", b"", [], object(), objects of unrelated codec classes; and for instances of the
+    library's subclasses / base classes of the class (same class-level fields: the case an `isinstance` guard lets
+    through; and one field changed)"""
+    rng = ctx.rng
+    rel = relatives().get(cg.cls, {"other": [], "sub": [], "base": []})
+    cgs = _classgens()
+    lines = []
+    for _ in range(ctx.scale(2, 30)):
+        opts = rng.choice(cg.opts)
+        fa = cg.valid(rng)
+        left = gen.sets(fa)
+        for kind in core.FOREIGN_KINDS:
+            if kind != "other":
+                lines.append(gen.E(cg.cls, left, ["@" + kind], opts))
+        others = list(rel["other"])
+        rng.shuffle(others)
+        for m in others[:ctx.scale(4, 40)]:
+            lines.append(gen.E(cg.cls, left, ["@other:" + m], opts))
+        lines.append(gen.E(cg.cls, [], ["@none"], opts))            # a newly constructed object on the left
+        for m in rel["sub"]:
+            # the subclass instance is given this class's field values (all equal / one changed)
+            lines.append(gen.E(cg.cls, left, ["@sub:" + m] + left, opts))
+            k = rng.choice(list(fa.keys()))
+            alt = cg.alt(rng, k, fa[k]) if cg.alt is not None else cg.valid(rng).get(k)
+            if alt is not None:
+                lines.append(gen.E(cg.cls, left, ["@sub:" + m] + gen.sets(dict(fa, **{k: alt})), opts))
+            lines.append(gen.E(cg.cls, left, ["@sub:" + m], opts))
+        for m in rel["base"]:
+            if m not in cgs:
+                continue
+            fb = cgs[m].valid(rng)
+            common = {k: v for k, v in fb.items() if k in fa}
+            lines.append(gen.E(cg.cls, gen.sets(dict(fa, **common)), ["@base:" + m] + gen.sets(common), opts))
+            lines.append(gen.E(cg.cls, left, ["@base:" + m] + gen.sets(common), opts))
+            lines.append(gen.E(cg.cls, left, ["@base:" + m], opts))
+    return lines
+
 def corr_C14(ctx):
     lines = []
     for name, cg in sorted(_classgens().items()):
@@ -480,6 +556,9 @@ def corr_C14(ctx):
         for _ in range(ctx.scale(6, 200)):
             for opts, fa, fb, k in _twins(ctx, cg):
                 lines.append(gen.E(cg.cls, gen.sets(fa), gen.sets(fb), opts))
+        before = len(lines)
+        lines += _foreign_lines(ctx, cg)
+        ctx.count("lines_foreign_operands", len(lines) - before)
     return lines
 
 FOREIGN = [5, None, b"", "text", [], object()]
@@ -551,7 +630,38 @@ def check_eq_foreign(args):
             return "%s == %s raised (%s) instead of returning False" % (cls, type(x).__name__, st[1])
         if st[1] is not False and st[1] is not NotImplemented and st[1]:
             return "%s == %s returned %r" % (cls, type(x).__name__, st[1])
+        for what, fn, want in (("!=", lambda: oa != x, True), ("== (operands swapped)", lambda: x == oa, False),
+                               ("!= (operands swapped)", lambda: x != oa, True)):
+            st = guarded(fn)
+            if st[0] != "ok":
+                return "%s %s %s raised (%s)" % (cls, what, type(x).__name__, st[1])
+            if st[1] is not want:
+                return "%s %s %s returned %r" % (cls, what, type(x).__name__, st[1])
     return None
+
+def observe_eq_related(ctx):
+    """OBSERVATION, not a failure (C14 speaks of UNRELATED types): `a == x` where x is an instance of a library
+    subclass / base class of a's class, given the same class-level field values.  What raises is recorded in the
+    evidence notes (the model says the same: `eqSubclass` / `eqBaseclass`, compared by the correspondence)."""
+    seen = set()
+    cgs = _classgens()
+    for name, cg in sorted(cgs.items()):
+        if not cg.has_eq:
+            continue
+        rel = relatives().get(cg.cls, {})
+        for kind in ("sub", "base"):
+            for m in rel.get(kind, []):
+                fa = cg.valid(ctx.rng)
+                if kind == "base" and m in cgs:
+                    fa = dict(fa, **{k: v for k, v in cgs[m].valid(ctx.rng).items() if k in fa})
+                common = fa if kind == "sub" else {k: v for k, v in fa.items() if m in cgs and k in cgs[m].valid(ctx.rng)}
+                line = gen.E(cg.cls, gen.sets(fa), ["@%s:%s" % (kind, m)] + gen.sets(common), cg.opts[0])
+                r = run_line_impl(line)
+                if r.startswith("err:") and (cg.cls, m) not in seen:
+                    seen.add((cg.cls, m))
+                    ctx.notes.append("observation (eq_related): %s == <%s instance with the same field values> raises %s "
+                                     "(related by inheritance: outside C14's \"unrelated type\" clause)" % (cg.cls, m, r[4:]))
+    return []
 
 def oracles_C14(ctx, hints):
     fails = []
@@ -596,6 +706,7 @@ def oracles_C14(ctx, hints):
                     done.add("for")
                     fails.append(Failure("eq_foreign", args, w, {"class": cg.cls, "check": "eq_foreign"}))
     ctx.count("oracle_evaluations", n)
+    observe_eq_related(ctx)
     return fails
 
 # ------------------------------------------------------------------------------------------- C08
